@@ -28,6 +28,9 @@ from vlib.errors import HarnessError
 
 LEVEL = "model_checking"
 _exe = None
+# sanitizer reports abort(): the driver's SIGABRT handler then names the case it was executing
+_SAN_ENV = {"ASAN_OPTIONS": "detect_leaks=0:abort_on_error=1",
+            "UBSAN_OPTIONS": "print_stacktrace=1:halt_on_error=1:abort_on_error=1"}
 
 # BFS configurations: (name, driver arguments).  PRIOS index: 0=-32768 1=-257 2=-1 3=0 4=1 5=255 6=256 7=32767
 QUICK_BFS = [
@@ -79,7 +82,7 @@ def _san_summary(err):
 def _job(job):
     name, args, tmo = job
     try:
-        rc, out, err = cbuild.run(_exe, args, timeout=tmo)
+        rc, out, err = cbuild.run(_exe, args, timeout=tmo, env=_SAN_ENV)
     except subprocess.TimeoutExpired:
         return {"name": name, "args": args, "rc": None, "js": None, "v": [], "crash": None, "err": "timeout after %ds" % tmo}
     js, v, crash = None, [], None
